@@ -7,7 +7,8 @@
    no_delay, keepalive), every peer, every recv behaviour, and every script of Exception-class failures
    of getaddrinfo/socket/setsockopt/wrap_socket/settimeout/connect/sendall/close (script_exc). *)
 From Coq Require Import ZArith List Bool.
-From PM Require Import Lib.Py Model.World Model.Readers Model.Client Spec.Lifecycle Proofs.Hoare Proofs.C06Proof.
+From Coq Require Import String.
+From PM Require Import Lib.Py Model.World Model.Readers Model.Client Spec.Lifecycle Proofs.Hoare Proofs.C06Proof Gen.Wrappers.
 Import ListNotations.
 Open Scope Z_scope.
 
@@ -72,3 +73,11 @@ Theorem c06_fallback_success : forall P c j n err (w w' : world P) sid,
   try_make P c j w = (Ok (inl sid), w') -> addr_loop P c j (S n) err w = (Ok (Some (sid, j), None), w').
 Proof. exact C06Proof.addr_loop_success. Qed.
 Print Assumptions c06_fallback_success.
+
+(* "a Client on its own or inside a pool or hash client": the two timeouts reach the inner Client unswapped.  The tables are read
+   from PooledClient._create_client and HashClient.__init__ (default_kwargs) on every run (Gen/Wrappers.v) *)
+Theorem c06_stack_timeouts :
+  In ("connect_timeout", "self.connect_timeout")%string pooled_create_kwargs /\ In ("timeout", "self.timeout")%string pooled_create_kwargs /\
+  In ("connect_timeout", "connect_timeout")%string hash_default_kwargs /\ In ("timeout", "timeout")%string hash_default_kwargs.
+Proof. repeat split; cbn; tauto. Qed.
+Print Assumptions c06_stack_timeouts.
